@@ -26,6 +26,12 @@
 (*   alive    what survived of "loader" / "stream" (weak references) once  *)
 (*            the generator had been closed and dropped, with the cyclic   *)
 (*            garbage collector disabled: the EFFECT of releasing          *)
+(*   abandons << [at, built, disposals, readsAfter, alive] >>: repetitions  *)
+(*            of the same iteration that were abandoned after `at` items   *)
+(*            (every abandonment point); judged by the release clauses     *)
+(*   judge    "all" | "release": a stream whose document ends are not      *)
+(*            known to the harness (corpus file) is judged for release     *)
+(*            only                                                         *)
 (***************************************************************************)
 EXTENDS Naturals, Sequences, FiniteSets, TLC, Json, IOUtils
 HL == INSTANCE Lazy
@@ -38,7 +44,16 @@ Bad(w, a) == [ok |-> FALSE, why |-> w, at |-> a]
 Over(req, end) == IF req > end THEN req - end ELSE 0
 Delivered(t) == Len(t.yields)
 
-Judge(t) ==
+Min(S) == CHOOSE j \in S : \A i \in S : j <= i
+\* every abandoned repetition: disposed, never read again, nothing left of loader and stream
+JudgeRelease(t) ==
+  LET undisposed == {j \in DOMAIN t.abandons : ~HL!ReleasedAll(t.abandons[j].built, t.abandons[j].disposals, t.abandons[j].readsAfter)}
+      left == {j \in DOMAIN t.abandons : ~HL!NothingLeft({t.abandons[j].alive[i] : i \in DOMAIN t.abandons[j].alive})}
+  IN  IF undisposed # {} THEN Bad("loader not disposed on abandon", t.abandons[Min(undisposed)].at)
+      ELSE IF left # {} THEN Bad("loader not released on abandon", t.abandons[Min(left)].at)
+      ELSE Ok
+
+JudgeAll(t) ==
   LET n == Len(t.ends)
       late == {j \in DOMAIN t.yields : t.yields[j].k # j \/ j > n \/ ~HL!Within(Over(HL!Charged(t.yields[j].req, t.slack), t.ends[j]), t.block)}
   IN
@@ -58,7 +73,9 @@ Judge(t) ==
        THEN Bad("loader not disposed on abandon", Delivered(t))
   ELSE IF t.outcome = "abandoned" /\ ~HL!NothingLeft({t.alive[j] : j \in DOMAIN t.alive})
        THEN Bad("loader not released on abandon", Delivered(t))
-  ELSE Ok
+  ELSE JudgeRelease(t)
+
+Judge(t) == IF t.judge = "release" THEN JudgeRelease(t) ELSE JudgeAll(t)
 
 Init == tid \in 1 .. Len(Traces)
 Next == FALSE /\ tid' = tid
